@@ -123,6 +123,7 @@ def run(ctx, rep):
     filter_semantics_rule(P, rep)
     nofollow_probe_rule(P, rep, 'R-C18-7', ('filter_existence',), 'the -m / -e existence filters')
     filter_parity_rule(P, rep, 'R-C18-8')
+    filter_subject_rule(P, rep, 'R-C18-9')
 
 
 def filter_semantics_rule(P, rep, rid='R-C18-6'):
@@ -371,3 +372,33 @@ def filter_parity_rule(P, rep, rid):
                     'present' if has_file else 'empty', 'present' if has_disk else 'empty', bool(miss), list(ans), got, want,
                     ' -- with -f alone the parity stays selected and fix rewrites parity blocks outside the selection' if (has_file and not has_disk and want[0] == 1) else '')
     rep.check(bad is None, rid, 'state_filter: which parity files stay selected', f.file, '%d evaluations' % n if bad is None else bad, function='state_filter', construct='parity exclusion')
+
+
+def filter_subject_rule(P, rep, rid):
+    """state_filter judges every recorded entity (file, link, empty directory) by its own path inside the disk -- the `sub` member of
+    its record -- in each of the filters it applies (-d, -f, -m, errors).  A filter call that looks at another member (the target of
+    a link instead of the link's name) selects by something the user did not name."""
+    from ..grammar import qual_member
+    f = P.fn('state_filter')
+    rep.analysed(f)
+    rep.rule(rid, 'state_filter: in the loops over files, links and directories every filter_path / filter_emptydir / filter_existence call is given the `sub` member of the entity', 8)
+    n = 0
+    for c in f.calls({'filter_path', 'filter_emptydir', 'filter_existence', 'filter_subdir'}):
+        if f.loop_of(c.block) is None:
+            continue
+        # the path argument is the last pointer argument
+        arg = c.ops[-1] if c.callee != 'filter_existence' else c.ops[2]
+        q = qual_member(f, arg)
+        if q is None and f.const_of(arg) == 0:
+            continue          # the parity names are filtered with a null sub
+        if q is None:
+            continue
+        st_, mem = q.split('.', 1)
+        if st_ not in ('snapraid_file', 'snapraid_link', 'snapraid_dir'):
+            continue
+        n += 1
+        rep.check(mem == 'sub', rid, '%s(%s) at line %s' % (c.callee, q, c.line), c.loc(),
+                  'judged by its own path' if mem == 'sub' else 'the %s is selected by its `%s` member, not by its path: check / fix -f act on links whose target matches the pattern and skip the ones whose name does' % (st_.replace('snapraid_', ''), mem),
+                  function='state_filter', construct='filter on %s' % q)
+    if n < 8:
+        raise AnalysisBroken('state_filter: filter calls on entity paths not recognised (%d)' % n)
